@@ -1,0 +1,160 @@
+//go:build verif
+
+// Round 6, area K: contracts for apps/nsqadmin (C17 C18): the flag set (every flag's default is the value of the SAME option of
+// NewOptions(); C17: admin list, ACL header, /config CIDR), option resolution before New, a failed New is fatal, Main started once,
+// Exit only through the Once. Comment-only file. Assumed library contracts: .trusted/r6K.spec, r5I.spec and the in-package externs below.
+// logFatal has no contract (never returns; inlined down to os.Exit - see apps/nsqlookupd/zz_contracts_r6K_verif.go).
+
+package main
+
+// ---- library calls as seen from this package ------------------------------------------------------------------------------------------
+// flag.FlagSet.Var(value, name, usage): defines the flag `name` whose default is the CURRENT content of the variable behind `value`.
+// The Var flags of this program are --log-level (*lg.LogLevel) and three lists (*app.StringArray): the level resp. the LENGTH of the list
+// at definition time is recorded (for a value of the other type the corresponding record is meaningless and never used).
+//@ extern[in github.com/nsqio/nsq/apps/nsqadmin] (*flag.FlagSet).Var(fs, value, name, usage)
+//@   modifies r5IFlags
+//@   onreturn r5IFlags := setadd(r5IFlags, r5IFlagKey(fs, name))
+//@   onreturn r6KFlagDefs := setadd(setadd(r6KFlagDefs, r6KDefInt(fs, name, *unbox(value, "*lg.LogLevel"))), r6KDefLen(fs, name, len(*unbox(value, "*app.StringArray"))))
+
+// go-options Resolve: writes the exported fields of *options and nothing else; recorded: how many, which options object, which flag set,
+// and how many option swaps (nsqadmin.New installs its options with exactly one swap) had been made by then.
+//@ ghost r6KAResolves int
+//@ ghost r6KAResolvedOpts interface{}
+//@ ghost r6KAResolvedFlags *flag.FlagSet
+//@ ghost r6KAResolveSawSwaps int
+//@ ghostgroup r6KAResolves, r6KAResolvedOpts, r6KAResolvedFlags, r6KAResolveSawSwaps
+//@ extern[in github.com/nsqio/nsq/apps/nsqadmin] github.com/mreiferson/go-options.Resolve(options, flagSet, cfg)
+//@   modifies *unbox(options, "*nsqadmin.Options"), r6KAResolves
+//@   onreturn r6KAResolves := r6KAResolves + 1
+//@   onreturn r6KAResolvedOpts := options
+//@   onreturn r6KAResolvedFlags := flagSet
+//@   onreturn r6KAResolveSawSwaps := optSwaps
+
+// sync.Once.Do: recorded; the closure runs iff this is the first Do on that Once (sync.Once - ASSUMED); its body is program.Stop$1.
+//@ extern[in github.com/nsqio/nsq/apps/nsqadmin] (*sync.Once).Do(o, f)
+//@   modifies
+//@   onreturn r5IOnceDos := r5IOnceDos + 1
+//@   onreturn r5IOnceLast := o
+
+//@ benign (github.com/judwhite/go-svc.Environment).IsWindowsService, os.Chdir, path/filepath.Dir
+
+// p.nsqadmin is written once, by Start (SSA sweep).
+//@ constructors (*main.program).Start
+//@ immutable program.nsqadmin
+
+// ---- the flag set ---------------------------------------------------------------------------------------------------------------------
+// C17: "When admin users are configured ..." / "the ACL header" / "/config ... only from the allowed CIDR when one is configured": the
+// three settings reach the daemon through these flags, and an unconfigured flag hands its DEFAULT to the options. EVERY flag is defined
+// with the value of the same option of the options object it is given: one clause per flag. The list flags start EMPTY (no admin user
+// = everybody may act, NewOptions/[no-admin-list]; no upstream address).
+//@ func nsqadminFlagSet(opts *nsqadmin.Options) *flag.FlagSet
+//@   props C17 C18
+//@   requires opts != nil
+//@   ensures[a-new-flag-set] result != nil && fresh(result)
+//@   ensures[version-and-config-defined] setin(r5IBoolFlags, r5IFlagKey(result, "version")) && setin(r5IFlags, r5IFlagKey(result, "version")) && setin(r5IFlags, r5IFlagKey(result, "config"))
+//@   ensures[default-acl-http-header] setin(r6KFlagDefs, r6KDefStr(result, "acl-http-header", opts.ACLHTTPHeader))
+//@   ensures[default-allow-config-from-cidr] setin(r6KFlagDefs, r6KDefStr(result, "allow-config-from-cidr", opts.AllowConfigFromCIDR))
+//@   ensures[default-admin-user-list-empty] setin(r6KFlagDefs, r6KDefLen(result, "admin-user", 0))
+//@   ensures[default-upstream-lists-empty] setin(r6KFlagDefs, r6KDefLen(result, "lookupd-http-address", 0)) && setin(r6KFlagDefs, r6KDefLen(result, "nsqd-http-address", 0))
+//@   ensures[default-http-address] setin(r6KFlagDefs, r6KDefStr(result, "http-address", opts.HTTPAddress))
+//@   ensures[default-base-path] setin(r6KFlagDefs, r6KDefStr(result, "base-path", opts.BasePath))
+//@   ensures[default-dev-static-dir] setin(r6KFlagDefs, r6KDefStr(result, "dev-static-dir", opts.DevStaticDir))
+//@   ensures[default-graphite-url] setin(r6KFlagDefs, r6KDefStr(result, "graphite-url", opts.GraphiteURL))
+//@   ensures[default-statsd-counter-format] setin(r6KFlagDefs, r6KDefStr(result, "statsd-counter-format", opts.StatsdCounterFormat))
+//@   ensures[default-statsd-gauge-format] setin(r6KFlagDefs, r6KDefStr(result, "statsd-gauge-format", opts.StatsdGaugeFormat))
+//@   ensures[default-statsd-prefix] setin(r6KFlagDefs, r6KDefStr(result, "statsd-prefix", opts.StatsdPrefix))
+//@   ensures[default-statsd-interval] setin(r6KFlagDefs, r6KDefInt(result, "statsd-interval", opts.StatsdInterval))
+//@   ensures[default-http-client-connect-timeout] setin(r6KFlagDefs, r6KDefInt(result, "http-client-connect-timeout", opts.HTTPClientConnectTimeout))
+//@   ensures[default-http-client-request-timeout] setin(r6KFlagDefs, r6KDefInt(result, "http-client-request-timeout", opts.HTTPClientRequestTimeout))
+//@   ensures[default-log-level] setin(r6KFlagDefs, r6KDefInt(result, "log-level", opts.LogLevel))
+//   (flags defined with a literal: the same value NewOptions gives - NewOptions/[log-defaults], [unset-options-are-zero])
+//@   ensures[default-log-prefix] setin(r6KFlagDefs, r6KDefStr(result, "log-prefix", "[nsqadmin] "))
+//@   ensures[default-proxy-graphite-off] setin(r6KFlagDefs, r6KDefBool(result, "proxy-graphite", false))
+//@   ensures[default-no-notification-endpoint] setin(r6KFlagDefs, r6KDefStr(result, "notification-http-endpoint", ""))
+//@   ensures[default-http-client-tls-off] setin(r6KFlagDefs, r6KDefBool(result, "http-client-tls-insecure-skip-verify", false)) && setin(r6KFlagDefs, r6KDefStr(result, "http-client-tls-root-ca-file", ""))
+//@        && setin(r6KFlagDefs, r6KDefStr(result, "http-client-tls-cert", "")) && setin(r6KFlagDefs, r6KDefStr(result, "http-client-tls-key", ""))
+//@   ensures[default-no-config-file-no-version] setin(r6KFlagDefs, r6KDefStr(result, "config", "")) && setin(r6KFlagDefs, r6KDefBool(result, "version", false))
+//@   ensures[options-untouched] opts.ACLHTTPHeader == old(opts.ACLHTTPHeader) && opts.AllowConfigFromCIDR == old(opts.AllowConfigFromCIDR) && opts.AdminUsers == old(opts.AdminUsers)
+//@   modifies r5IFlags, r5IBoolFlags
+//@   nochan
+
+// ---- Init -----------------------------------------------------------------------------------------------------------------------------
+//@ func (p *program) Init(env svc.Environment) error
+//@   props C17 C18
+//@   requires p != nil && env != nil
+//@   requires[program-name-present] len(os.Args) >= 1
+//@   modifies
+//@   nochan
+
+// ---- Start ----------------------------------------------------------------------------------------------------------------------------
+// The options are NewOptions() resolved against the flag set built FROM THAT OBJECT and the config file, exactly once and BEFORE
+// nsqadmin.New installs them; New is called once with the very object that was resolved (curOpts = what every handler reads the admin
+// list, the ACL header name and the CIDR from); a failed New is fatal; the daemon stored in p.nsqadmin is the one New returned; the
+// goroutine that runs Main is spawned once, after that, with Main's precondition established.
+// [defaults-survive-the-flag-set] spells out C17's three settings: header "X-Forwarded-User", /config from 127.0.0.1/8 (the documented
+// default of --allow-config-from-cidr), empty admin list.
+//@ func (p *program) Start() error
+//@   props C17 C18
+//@   requires p != nil
+//@   requires[program-name-present] len(os.Args) >= 1
+//@   ensures[options-resolved-once] r6KAResolves == old(r6KAResolves) + 1
+//@   ensures[resolved-against-the-flag-set-of-these-options] dyntype(r6KAResolvedOpts) == typetag("*nsqadmin.Options") && unbox(r6KAResolvedOpts, "*nsqadmin.Options") == final(opts) && r6KAResolvedFlags == final(flagSet)
+//@   ensures[defaults-survive-the-flag-set] setin(r6KFlagDefs, r6KDefStr(r6KAResolvedFlags, "acl-http-header", "X-Forwarded-User")) && setin(r6KFlagDefs, r6KDefStr(r6KAResolvedFlags, "allow-config-from-cidr", "127.0.0.1/8"))
+//@        && setin(r6KFlagDefs, r6KDefLen(r6KAResolvedFlags, "admin-user", 0))
+//@   ensures[resolved-before-new] r6KAResolveSawSwaps == old(optSwaps)
+//@   ensures[daemon-built-once-from-the-resolved-options] optSwaps == old(optSwaps) + 1 && curOpts == final(opts) && p.nsqadmin != nil && p.nsqadmin.notifications != nil
+//@   ensures[main-precondition-established] curOpts.ProxyGraphite ==> p.nsqadmin.graphiteURL != nil
+//@   ensures[main-started-once] r6KAMainSpawns == old(r6KAMainSpawns) + 1
+//@   ensures[main-started-last] r6KASpawnSawSwaps == old(optSwaps) + 1 && r6KASpawnSawResolves == old(r6KAResolves) + 1
+//@   ensures[main-not-run-by-start] r5HWraps == old(r5HWraps)
+//@   ensures[ok] result == nil
+
+//@ ghost r6KAMainSpawns int
+//@ ghost r6KASpawnSawSwaps int
+//@ ghost r6KASpawnSawResolves int
+//@ ghostgroup r6KAMainSpawns, r6KASpawnSawSwaps, r6KASpawnSawResolves
+
+// The goroutine: runs Main on the daemon (Main/[two-goroutines]: the serve loop and the notification pump); a failed Main ends in Stop +
+// os.Exit(1), so the function RETURNS only after a Main that reported no error.
+//@ func (p *program) Start$1()
+//@   props C17 C18
+//@   requires p != nil && p.nsqadmin != nil
+//   (established by Start before the `go` statement: Start/[main-precondition-established]; New/[graphite-url-parsed])
+//@   requires[graphite-url-parsed] curOpts.ProxyGraphite ==> p.nsqadmin.graphiteURL != nil
+//@   onspawn r6KAMainSpawns := r6KAMainSpawns + 1
+//@   onspawn r6KASpawnSawSwaps := optSwaps
+//@   onspawn r6KASpawnSawResolves := r6KAResolves
+//@   ensures[main-once] r5HWraps == old(r5HWraps) + 2
+//@   ensures[returns-only-after-a-clean-main] final(err) == nil
+
+// Stop: Exit is reached ONLY through p.once - one Do per Stop, on this program's Once (NSQAdmin.Exit closes the notification channel: a
+// second Exit would panic, Exit/[first-call]).
+//@ func (p *program) Stop() error
+//@   props C17 C18
+//@   requires p != nil
+//@   ensures[exit-only-through-the-once] r5IOnceDos == old(r5IOnceDos) + 1 && r5IOnceLast == &p.once
+//@   ensures[ok] result == nil
+//@   modifies r5IOnceDos, r5IOnceLast
+
+// The function the Once runs: one Exit on the daemon Start built.
+//@ func (p *program) Stop$1()
+//@   props C17 C18
+//@   requires p != nil
+//   (call protocol: Stop is called after Start stored the daemon; the Once runs this function at most once and nothing else closes the
+//    notification channel - sync.Once, ASSUMED - so Exit's [first-call] holds)
+//@   requires[started] p.nsqadmin != nil && p.nsqadmin.notifications != nil
+//@   requires[run-once] !closed(p.nsqadmin.notifications)
+//@   ensures[one-exit-of-this-daemon] closed(p.nsqadmin.notifications)
+
+//@ func main()
+//@   props C17 C18
+//@   ensures[runs-one-fresh-program] r5ISvcRuns == old(r5ISvcRuns) + 1 && dyntype(r5ISvcService) == typetag("*program") && fresh(unbox(r5ISvcService, "*program"))
+//@   ensures[watches-int-and-term] len(r5ISvcSignals) == 2
+
+// Validate: translates log_level of the config-file map in place (a level that does not parse is fatal); nothing else is written - in
+// particular admin_users, acl_http_header and allow_config_from_cidr of the config file reach Resolve as given.
+//@ func (cfg config) Validate()
+//@   props C17 C18
+//@   ensures[only-log-level-translated] forall k string :: {cfg[k]} k != "log_level" ==> has(cfg, k) == old(has(cfg, k)) && cfg[k] == old(cfg[k])
+//@   modifies mapof(cfg)
+//@   nochan
